@@ -1,4 +1,4 @@
-\* witness wanted (coarse schedule, replayable): HardLimit fails for the code as it is
+\* the tree BEFORE /repo f5c221a (unsigned want): behaviours that reach rarely taken decision branches (GoalCover in MCDiscovery.tla)
 SPECIFICATION SpecB
 CONSTANTS
   Peers = {"p1", "p2", "p3"}
@@ -7,7 +7,7 @@ CONSTANTS
   Workers = {"w1", "w2"}
   Callers = {}
   Delay = 1
-  MaxRounds = 1
+  MaxRounds = 2
   MaxDrops = 0
   MaxInbound = 0
   MaxFail = 0
@@ -15,12 +15,12 @@ CONSTANTS
   MaxApi = 0
   WithGC = FALSE
   AtomicPeers = FALSE
-  SignedWant = TRUE
+  SignedWant = FALSE
   Serialized = FALSE
   DirectAPI = FALSE
   MaxLen = 200
-  Wanted = {}
+  Wanted = {"x_roundBelow"}
 CHECK_DEADLOCK FALSE
 VIEW state
 ACTION_CONSTRAINT CoarseSchedule
-INVARIANTS HardLimit
+INVARIANTS GoalCover
